@@ -341,8 +341,9 @@ class QueryGen:
             t = rng.choice(ANY_TYPES)
             return ir.agg('count', [self.g.expr(t, rng.randint(1, 2))], T_INT)
         if r < 0.6:
-            t = rng.choice([T_INT, T_DEC])
-            return ir.agg('sum', [self.g.expr(t, rng.randint(1, 3))], t)
+            t = rng.choice([T_INT, T_DEC, T_INT, T_DEC, T_BOOL])
+            # sum over a boolean argument counts the TRUE values: an int, from the int zero
+            return ir.agg('sum', [self.g.expr(t, rng.randint(1, 3))], T_INT if t == T_BOOL else t)
         name = rng.choice(['min', 'max', 'first', 'last'])
         t = rng.choice(ORDERABLE)
         return ir.agg(name, [self.g.expr(t, rng.randint(1, 2))], t)
